@@ -1,5 +1,6 @@
 import YarlProofs.C20
 import YarlProofs.C20Yarl
+import YarlProofs.C20Multi
 /-!
 # C20 — URLs and caches are safe to share between threads   (audit layer)
 
@@ -21,6 +22,10 @@ policy.  `Sem` supplies the pure semantics; `yarlSem e` is the real one: `constr
 constructor, `derive` = the 34 accessors of YarlModel/Url.lean (exceptions are values), `prefill` = the
 four entries `encode_url` pre-computes.  `<+:` is "is a prefix of" (a schedule may stop before a thread
 has finished).
+
+The file has two halves: first the single-cache thread machine above (theorems `C20_headline_*`), then — after a second
+reading guide — the thread machine with SEVERAL caches, derivations, `hash`, comparisons and REBINDING `cache_configure`
+of YarlModel/CacheMulti.lean (theorems `C20_headline_multi_*`, proofs in C20Multi.lean), which closes GAPS 2 and 5.
 -/
 namespace Yarl
 open Yarl.Cache Yarl.CacheLemmas Yarl.CacheInst
@@ -106,41 +111,183 @@ theorem C20_headline_static_buffer_fails_for_interleaving :
       ∃ r, t.result = some r ∧ r ≠ t.text :=
   C20_buffer_needs_atomicity
 
+end Yarl
+
+/-! # Threads on the machine with SEVERAL caches, derivations and rebinding configure (closes GAPS 2, 5)
+
+Reading guide (YarlModel/CacheMulti.lean, namespace `Yarl.MultiCache`; proofs in C20Multi.lean; the sequential theory is in
+C08Multi.lean / C08Headline, second half).  The `World` has ONE shared heap of URL objects and, for every cache `i` and
+every GENERATION `g` of it, a table and a capacity; `gen i` is the generation the module global is currently bound to;
+`dmemo` is the derivation memo (`cached_property`s that hold a URL OBJECT: `parent`, `_origin`).  `Op`s of a thread:
+`.new k` (cached call through cache `cacheOf k`), `.read h name`, `.hash h`, `.cmp c h1 h2`, `.twin h`, `.mod h m args`
+(a DERIVATION: modifier `m` on handle `h` with URL handles `args`), `.clear i`, `.configure i cap`.  Atomic steps
+(`tstep`, one shared-state access each): fetch the wrapper (= read `gen i`) / table look-up in THAT generation / compute /
+allocate + table store in THAT generation / derivation-memo look-up / derivation-memo store / memo look-up / memo store /
+fetch + `cache_clear`; `.configure i cap` is ONE step that rebinds the global to generation `gen i + 1` with an empty table
+(`reconfigure`) — a thread that fetched the old wrapper before completes its call on the OLD table.  A thread's state
+`Thread.pend` says what it is in the middle of (`.idle`, `.fetched k g slot`, `.computed k g r slot`, `.dstore …`,
+`.readComputed …`, `.clearFetched i g`, `.modRun s`).  `Coherent sem w pool spool` (C08Multi.lean) = every memo entry, every
+table entry of every generation and every derivation-memo entry of `w` is correct and the pool handles denote the spec
+values `spool`; true of the empty world and after any sequential prologue.  `yarlMSem e hf` = the REAL model (all four
+shared-object constructors + `from_parts_uncached`, every modifier of the model incl. `join`, `hash` with an arbitrary
+tuple-hash `hf`, the six comparisons, 34 accessors + `_sort_key`); `strSem o` = the three configurable string caches
+`_encode_host`, `_idna_encode`, `_idna_decode` (see the vocabulary block in C08Headline, second half).
+-/
+namespace Yarl
+open Yarl.Cache (Policy)
+open Yarl.MultiCache Yarl.MultiInst
+
+/-! ## "concurrent construction, accessor reads and DERIVATIONS on shared URLs produce exactly the results of a sequential
+    run" — several caches -/
+
+/-- the abstract multi-cache machine, for ANY semantics, eviction policies, initial coherent world and shared pool, any
+    programs (cached calls on any of the caches, derivations, reads, hashing, comparisons, copies, per-cache clears and
+    rebinding configures) and ANY schedule (any length, any order, threads may starve): every thread's outputs are a prefix
+    of its sequential cache-free outputs, and equal to them once it has finished. -/
+theorem C20_headline_multi_any_schedule {I Key Mod Err Parts Val : Type} [DecidableEq I] [DecidableEq Key]
+    (sem : MultiCache.Sem I Key Mod Err Parts Val)
+    -- what a constructor pre-computes is what the accessor (or `hash`) would compute (property C09; discharged for yarl
+    -- below; needed: C08_multi_prefill_needed and the last `example` of C20Multi.lean's Tiny section)
+    (hp : MultiCache.PrefillOK sem)
+    -- two derivations memoised under one property name are the same function (yarl: "parent", "_origin", one each;
+    -- needed: C08_multi_memo_names_needed)
+    (hn : MemoNamesOK sem)
+    (pol : I → Policy Key) (w0 : MultiCache.World I Key Parts Val) (pool : List (Option Nat)) (spool : List (Option Parts))
+    -- the threads start on a consistent world (true of the empty world and after any sequential prologue)
+    (hc : MultiCache.Coherent sem w0 pool spool)
+    (progs : List (List (MultiCache.Op I Key Mod))) (sched : List Nat) :
+    let ts0 := progs.map (fun p => ({ prog := p, hs := pool } : MultiCache.Thread I Key Mod Err Parts Val))
+    let r := MultiCache.runSched sem pol w0 ts0 sched
+    ∀ (i : Nat) (t : MultiCache.Thread I Key Mod Err Parts Val), r.2[i]? = some t →
+      ∃ p, progs[i]? = some p ∧ t.outs <+: MultiCache.specRun sem spool p ∧
+        (t.prog = [] ∧ t.pend = .idle → t.outs = MultiCache.specRun sem spool p) :=
+  C20_multi_any_schedule hp hn pol w0 pool spool hc progs sched
+
+/-- "… and DERIVATIONS on shared URLs" for the REAL model (closes GAPS 2): threads sharing URL objects and ALL the
+    constructor caches (`encode_url`, `pre_encoded_url`, `build_pre_encoded_url`, `from_parts`; `from_parts_uncached`) —
+    the product of several independent lru_caches — started on the URLs an arbitrary sequential prologue `pre` created (and
+    derived, hashed, memoised …), doing constructions, derivations (every modifier of the model, `join` included;
+    `parent` / `_origin` memoised in the shared source object), accessor reads, `hash`, comparisons, copies, per-cache clears
+    and rebinding configures, under EVERY schedule: each thread's outputs are a prefix of — and, once it has finished,
+    equal to — what its program yields alone against the cache-free specification.  Both side conditions are discharged. -/
+theorem C20_headline_multi_yarl_any_schedule (e : Env)
+    (hf : Parts → Int)   -- Python's hash of the 5-tuple: any function
+    (pol : YCache → Policy (YKey e)) (caps : YCache → Nat → Option Nat) (gen : YCache → Nat)
+    (pre : List (MultiCache.Op YCache (YKey e) YMod))
+    (progs : List (List (MultiCache.Op YCache (YKey e) YMod))) (sched : List Nat) :
+    -- `encode_url` keys `.url k` are input strings inside C09's guard `GoodAuthority` (GAPS 3)
+    let w := MultiCache.runWorld (yarlMSem e hf) pol { caps := caps, gen := gen } [] pre
+    let spool := MultiCache.specHandles (yarlMSem e hf) [] pre
+    let ts0 := progs.map (fun p => ({ prog := p, hs := w.2 } : MultiCache.Thread YCache (YKey e) YMod PyErr Parts MVal))
+    let r := MultiCache.runSched (yarlMSem e hf) pol w.1 ts0 sched
+    ∀ (i : Nat) (t : MultiCache.Thread YCache (YKey e) YMod PyErr Parts MVal), r.2[i]? = some t →
+      ∃ p, progs[i]? = some p ∧ t.outs <+: MultiCache.specRun (yarlMSem e hf) spool p ∧
+        (t.prog = [] ∧ t.pend = .idle → t.outs = MultiCache.specRun (yarlMSem e hf) spool p) :=
+  C20_multi_yarl_any_schedule_after e hf pol caps gen pre progs sched
+
+/-! ## "with no exceptions, torn values or cross-talk between threads" — several caches -/
+
+/-- one atomic step of any thread of the real multi-cache model keeps the invariant `TCoherent` (C20Multi.lean: the world
+    is `WOK` — EVERY memo entry of every shared object, EVERY table entry of EVERY generation of every cache and EVERY
+    derivation-memo entry is correct: no torn or foreign value is ever visible — and every thread has completed a prefix
+    of its program with exactly the spec's outputs and a correct pending computation), existing objects keep their ids
+    and parts (`HeapExt`), and the other threads' records are untouched. -/
+theorem C20_headline_multi_yarl_step_invariant (e : Env) (hf : Parts → Int) (pol : YCache → Policy (YKey e))
+    (w : MultiCache.World YCache (YKey e) Parts MVal) (ts : List (MultiCache.Thread YCache (YKey e) YMod PyErr Parts MVal))
+    (spool : List (Option Parts)) (progs : List (List (MultiCache.Op YCache (YKey e) YMod))) (i : Nat)
+    (t : MultiCache.Thread YCache (YKey e) YMod PyErr Parts MVal)
+    (hc : MultiCache.TCoherent (yarlMSem e hf) w ts spool progs)   -- the invariant holds before the step
+    (hi : ts[i]? = some t) :                                        -- `t` is thread `i`
+    MultiCache.TCoherent (yarlMSem e hf) (MultiCache.tstep (yarlMSem e hf) pol w t).1
+        (ts.set i (MultiCache.tstep (yarlMSem e hf) pol w t).2) spool progs ∧
+    Yarl.CacheLemmas.HeapExt w.heap (MultiCache.tstep (yarlMSem e hf) pol w t).1.heap ∧
+    (∀ j, j ≠ i → (ts.set i (MultiCache.tstep (yarlMSem e hf) pol w t).2)[j]? = ts[j]?) :=
+  C20_multi_yarl_tstep_coherent e hf pol w ts spool progs i t hc hi
+
+/-! ## "and during cache_clear()/cache_configure()" — the caches these two functions really act on, with REBINDING -/
+
+/-- (closes GAPS 5, instantiation) the three configurable string caches `_encode_host`, `_idna_encode`, `_idna_decode`
+    under threads: calls, `cache_clear()` and REBINDING `cache_configure()` (per cache) interleaved in every possible way —
+    a thread that fetched the old wrapper completes its call on the old table — every thread's outputs are a prefix of /
+    equal to the sequential ones; and the sequential output of a call IS what the uncached function computes (value or
+    exception). -/
+theorem C20_headline_multi_string_caches_any_schedule (o : Oracles) (pol : SCache → Policy SKey)
+    (caps : SCache → Nat → Option Nat) (gen : SCache → Nat) (progs : List (List (MultiCache.Op SCache SKey Empty)))
+    (sched : List Nat) :
+    (let ts0 := progs.map (fun p => ({ prog := p, hs := [] } : MultiCache.Thread SCache SKey Empty PyErr Str Unit))
+     let r := MultiCache.runSched (strSem o) pol { caps := caps, gen := gen } ts0 sched
+     ∀ (i : Nat) (t : MultiCache.Thread SCache SKey Empty PyErr Str Unit), r.2[i]? = some t →
+       ∃ p, progs[i]? = some p ∧ t.outs <+: MultiCache.specRun (strSem o) [] p ∧
+         (t.prog = [] ∧ t.pend = .idle → t.outs = MultiCache.specRun (strSem o) [] p)) ∧
+    (∀ (shs : List (Option Str)) (k : SKey),
+      (MultiCache.specStep (strSem o) shs (.new k)).2 = .handle (match k with
+        | .host h v => encodeHost o h v
+        | .idnaEnc s => idnaEncode o s
+        | .idnaDec s => idnaDecode o s)) :=
+  ⟨C20_multi_strcaches_any_schedule o pol caps gen progs sched, C20_multi_strcaches_spec o⟩
+
+/-- (closes GAPS 5, rebinding) "a thread holding the old wrapper keeps using the old cache": (1) if cache `cacheOf k` has
+    been rebound since thread `t` fetched its wrapper (its generation `g` is no longer the current one), `t`'s store step
+    changes no binding, no capacity and no table that the CURRENT bindings of the globals reach; (2) after
+    `cache_configure` the current table of cache `i` is empty with the new capacity, every other cache's binding and
+    current table are unchanged, and the heap (all existing URLs) is unchanged.  For any semantics. -/
+theorem C20_headline_multi_rebinding {I Key Mod Err Parts Val : Type} [DecidableEq I] [DecidableEq Key]
+    (sem : MultiCache.Sem I Key Mod Err Parts Val) (pol : I → Policy Key) (w : MultiCache.World I Key Parts Val)
+    (t : MultiCache.Thread I Key Mod Err Parts Val) (k : Key) (g : Nat) (r : Except Err Parts) (slot : Option (Nat × String))
+    (i : I) (c : Option Nat) :
+    (t.pend = .computed k g r slot →       -- `t` has missed table `g` and computed: its next step allocates and stores
+     g ≠ w.gen (sem.cacheOf k) →           -- the cache has been rebound meanwhile
+      (MultiCache.tstep sem pol w t).1.gen = w.gen ∧ (MultiCache.tstep sem pol w t).1.caps = w.caps ∧
+      ∀ j, (MultiCache.tstep sem pol w t).1.tables j (w.gen j) = w.tables j (w.gen j)) ∧
+    ((reconfigure w i c).tables i ((reconfigure w i c).gen i) = [] ∧
+     (reconfigure w i c).caps i ((reconfigure w i c).gen i) = c ∧
+     (∀ j, j ≠ i → (reconfigure w i c).gen j = w.gen j ∧
+       (reconfigure w i c).tables j ((reconfigure w i c).gen j) = w.tables j (w.gen j)) ∧
+     (reconfigure w i c).heap = w.heap) :=
+  ⟨fun ht hg => C20_multi_stale_store_invisible sem pol w t k g r slot ht hg, C20_multi_rebinding_fresh_table w i c⟩
+
 /-
 GAPS (C20 is partial by nature: it is a statement about the CPython runtime):
- MODELLED (Cache.lean) and proved: the cached constructor's table with arbitrary capacity and eviction, shared
+ MODELLED (Cache.lean; CacheMulti.lean) and proved: the cached constructor's table with arbitrary capacity and eviction, shared
    objects with shared memos, three-step (look-up / compute / store) calls interleaved under every schedule,
    duplicated computation and double stores, clear/configure at any point, pickle/copy; result = sequential
-   cache-free result, for the abstract machine and for the real constructor + 34 accessors.
+   cache-free result, for the abstract machine and for the real constructor + 34 accessors.  In the multi-cache machine
+   additionally: several independent caches with generations (rebinding configure), derivations with a derivation memo,
+   `hash`, comparisons; for the abstract machine, the real model `yarlMSem` and the string caches `strSem`.
  ASSUMED / NOT MODELLED:
  1. Atomicity granularity: each of look-up / compute / store is ONE atomic step.  In CPython that relies on
     the GIL making `dict` get/set, `lru_cache` (C implementation) and `under_cached_property.__get__` atomic
     at that granularity; free-threaded (no-GIL) builds are outside the model.  "Torn values" below the level
     of one dict operation cannot be expressed.
- 2. "derivations on shared URLs" (with_*, /, joinpath, join, origin, …): NOT an `Op` of the thread model.
-    In the URL model they are pure functions of the parts (no shared state is read except through the
-    accessors covered above), so schedule independence holds by construction; but the cached
-    `from_parts` / `build_pre_encoded_url`-style constructors those derivations go through are not
-    instantiated as a second `table` — the generic theorem covers any ONE `Sem`, yarl has several caches
-    (`encode_url`, `pre_encoded_url`, `from_parts`, the IDNA and host caches `_idna_encode`, `_encode_host`,
-    `_idna_decode`), each an independent lru_cache: the product of several tables is not modelled.
+ 2. CLOSED by C20_multi_any_schedule, C20_multi_yarl_any_schedule_after, C20_multi_yarl_tstep_coherent (C20Multi.lean), see
+    C20_headline_multi_any_schedule, C20_headline_multi_yarl_any_schedule, C20_headline_multi_yarl_step_invariant.  Derivations
+    (with_*, the query modifiers, `/` / joinpath, parent, origin, relative, join) ARE `Op`s of the multi-cache thread model
+    (`.mod h m args`, split into derivation-memo look-up / body / fetch / table look-up / compute / store / derivation-memo
+    store), `hash` and the comparisons too; the product of the several independent lru_caches (`encode_url`,
+    `pre_encoded_url`, `build_pre_encoded_url`, `from_parts`, + `from_parts_uncached`) over one shared heap is modelled and
+    instantiated with the real model; the IDNA / host caches are the separate instance `strSem` (item 5).  Every schedule:
+    outputs = sequential cache-free outputs.  (Which argument object a method returns, which constructor a modifier goes through
+    and which derivations are `cached_property`s are hand-written definitions of C08Multi.lean — see C08Headline GAPS 1(b).)
  3. The constructor keys are restricted to `GoodKey e` (C09's guard) — for other inputs the pre-filled entries
     may differ from the lazily computed ones (C08's negative control), sequentially and concurrently alike.
  4. Static buffer: the toy `bufRun` is not Writer.lean and not the quoter; the link "no `nogil` in the .pyx ⇒
     a quoter call is one atomic step" is the GIL assumption, the three flags are extracted textually from
     the source by the harness.  Heap growth (malloc/realloc, C19) under concurrency is not modelled.
- 5. `cache_clear()` / `cache_configure()`: modelled as emptying THE table (and setting its capacity) in one atomic
-    step of the single modelled lru_cache.  In yarl these two functions act on the IDNA / host caches
-    (`_idna_encode`, `_idna_decode`, `_encode_host`) — pure string functions whose cached values are immutable
-    strings, not shared URL objects — while the constructor caches (`encode_url`, `pre_encoded_url`,
-    `from_parts`, …) are plain `@lru_cache`s that the public API never clears; and `cache_configure` REBINDS
-    the three module globals to new wrappers (a thread holding the old wrapper keeps using the old cache).
-    The abstract theorem applies to each cache separately (instantiate `Sem` with `Parts` = the string
-    result and no accessors); that instantiation and the rebinding are not written down.
+ 5. CLOSED by C20_multi_strcaches_any_schedule, C20_multi_strcaches_spec, C20_multi_stale_store_invisible,
+    C20_multi_rebinding_fresh_table (C20Multi.lean), see C20_headline_multi_string_caches_any_schedule, C20_headline_multi_rebinding.
+    `clear i` / `configure i cap` act PER CACHE; the instantiation with `_encode_host`, `_idna_encode`, `_idna_decode` (`Parts` = the
+    string result, no accessors) is written down (`strSem`) and proved schedule independent; `cache_configure` REBINDS: it starts a
+    new generation with an empty table, a thread that fetched the old wrapper finishes on the old table (hit or store there), and
+    that store is proved invisible through the current bindings.  What stays an ASSUMPTION of the model: `configure i cap` for ONE
+    cache is one atomic step and `.clear i` is fetch + clear (two steps); Python's `cache_configure(...)` rebinding the three
+    globals / `cache_clear()` clearing the three caches is then three consecutive `.configure` / `.clear` operations of one thread
+    (other threads may interleave between them — covered by "every schedule").  The constructor caches are plain
+    `@lru_cache`s the public API never clears; the model allows clearing / rebinding them as well (a superset).
  6. Liveness (no deadlock, every thread eventually finishes) is not stated: the theorems are safety-only
     (prefix; equality when finished).  There are no locks in the model or in yarl's Python code.
  7. Exceptions: modelled as values of `construct = none` / `R`-valued accessors; "no exceptions" means no
     exception that the sequential run does not also produce.  Interpreter-level failures (MemoryError,
-    KeyboardInterrupt in the middle of a store) are outside the model.
+    KeyboardInterrupt in the middle of a store) are outside the model.  (In the multi-cache machine a raising call or
+    derivation outputs `.handle (.error exc)` carrying the exception, so the equality of outputs compares exceptions exactly.)
 -/
 end Yarl
